@@ -77,9 +77,16 @@ if meta["confirmed"]:
         ids = checks or [c["property_id"] for c in man["checks"]]
         for cid in ids:
             t0 = time.time()
-            r = subprocess.run("./check %s --tier quick" % cid, cwd="/verif", shell=True, stdout=subprocess.PIPE,
-                               stderr=subprocess.PIPE, text=True, timeout=3600, env=dict(os.environ, VERIF_REPO=WT))
-            vio = [l for l in r.stdout.split("\n") if l.startswith("VIOLATION")]
+            for attempt in range(2):
+                r = subprocess.run("./check %s --tier quick" % cid, cwd="/verif", shell=True, stdout=subprocess.PIPE,
+                                   stderr=subprocess.PIPE, text=True, timeout=3600, env=dict(os.environ, VERIF_REPO=WT))
+                vio = [l for l in r.stdout.split("\n") if l.startswith("VIOLATION")]
+                # the harness under /verif may be mid-edit while this runs: a build failure that is
+                # not caused by the change under test disappears on a second attempt
+                if vio and "does not build" in r.stderr and attempt == 0:
+                    time.sleep(90)
+                    continue
+                break
             results[cid] = {"rc": r.returncode, "violation": vio[0] if vio else None, "wall_s": round(time.time() - t0, 1)}
             if vio:
                 m = re.search(r"replay=(\S+)", vio[0])
